@@ -204,3 +204,16 @@ Definition run_c14_blanket (s : sx) : sx :=
       end
   | _ => bad_request
   end.
+
+(* [nodes old-factors new-factors] -> [factors-after ok] of add_factors *)
+Definition run_c14_addfactors (s : sx) : sx :=
+  match s with
+  | SL [sn; sf; sg] =>
+      match sx_list sx_nat sn, sx_list dec_factor sf, sx_list dec_factor sg with
+      | Some ns, Some fs, Some new =>
+          let r := add_factors QR ns fs new in
+          sx_ok (SL [of_list enc_factor (fst r); of_bool (snd r)])
+      | _, _, _ => bad_request
+      end
+  | _ => bad_request
+  end.
